@@ -625,3 +625,453 @@ def replay(payload):
 # ----------------------------------------------------------------------------------------------------------------------------
 # FINDINGS (candidates; reported as KNOWN-FINDING only when listed in known_findings.json for C36, otherwise as violations)
 # ----------------------------------------------------------------------------------------------------------------------------
+
+def _msg(c):
+    return ' '.join(str(x) for x in c['eng'][1:]) if c['eng'][0] in ('err', 'panic') else ''
+
+
+def _spec(c):
+    return FR.FUNCS[c['key']]
+
+
+def _null_in(c):
+    return any(a is None for a in c['args'])
+
+
+def _doc_null_by_propagation(c):
+    return _spec(c).null == 'propagate' and _null_in(c) and c['ref'] == ('val', None)
+
+
+def _eq(a, b):
+    """engine value a equals model value b (same comparison as the oracle, no binary leniency)"""
+    return same(b, a) is None
+
+
+def _u8len(s):
+    return len(s.encode('utf-8'))
+
+
+# ---- math -------------------------------------------------------------------------------------------------------------------
+
+@finding('round_integer_negative_decimals_ignored', 'ROUND', 'ROUND(bigint, d) with negative d returns the integer unchanged instead of rounding to tens/hundreds',
+         'SELECT ROUND(7, -1) returned 7, Trino documents 10 (x rounded to d decimal places, d may be negative)', 'ROUND/int,small, d < 0, engine value == x')
+def _f_round_int(c):
+    return c['key'] == 'ROUND/int,small' and not _null_in(c) and c['args'][1] < 0 and _val(c) == c['args'][0]
+
+
+@finding('truncate_second_argument_ignored', 'TRUNCATE', 'TRUNCATE(x, n) ignores n and truncates to an integer', 'SELECT TRUNCATE(0.5, 1) returned 0.0, Trino documents 0.5',
+         'TRUNCATE|TRUNC/dbl,small, engine value == trunc(x)')
+def _f_trunc_n(c):
+    return c['key'] in ('TRUNCATE/dbl,small', 'TRUNC/dbl,small') and c['args'][0] is not None and c['eng'][0] == 'val' and _eq(_val(c), FR._trunc_d(c['args'][0])) and c['args'][1] is not None
+
+
+@finding('sign_nan_returns_zero', 'SIGN', 'SIGN(NaN) returns 0 (and SIGN of a double is an INTEGER) instead of NaN', 'SELECT SIGN(NAN()) returned 0, Trino documents NaN', 'SIGN/dbl, x is NaN, engine value == 0')
+def _f_sign_nan(c):
+    return c['key'] == 'SIGN/dbl' and FR.isnan(c['args'][0]) and _val(c) == 0
+
+
+@finding('to_base_only_radix_2_8_16', 'TO_BASE', 'TO_BASE supports only radix 2, 8 and 16: every other radix (valid or not) yields the decimal text, no error for a radix outside 2..36',
+         "SELECT TO_BASE(7, 36) returned '7' (ok by accident), TO_BASE(2147483648, 36) returned '2147483648', Trino documents 'zik0zk'; TO_BASE(7, 1) returned '7', Trino raises an error",
+         'TO_BASE, radix not in {2,8,16}, engine value == str(x)')
+def _f_to_base_dec(c):
+    return c['key'] == 'TO_BASE' and c['args'][0] is not None and (c['mode'] == 'col' or c['args'][1] not in (2, 8, 16)) and _val(c) == str(c['args'][0])
+
+
+@finding('to_base_negative_twos_complement', 'TO_BASE', "a negative number in radix 2/8/16 is printed as its 64-bit two's complement instead of '-' followed by the magnitude",
+         "SELECT TO_BASE(-2, 16) returned 'fffffffffffffffe', Trino documents '-2'", "TO_BASE, x < 0, radix in {2,8,16}, engine value == format(x mod 2^64)")
+def _f_to_base_neg(c):
+    a = c['args']
+    return c['key'] == 'TO_BASE' and not _null_in(c) and a[0] < 0 and a[1] in (2, 8, 16) and _val(c) == format(a[0] & ((1 << 64) - 1), {2: 'b', 8: 'o', 16: 'x'}[a[1]])
+
+
+@finding('from_base_bad_radix_panics', 'FROM_BASE', 'a radix outside 2..36 (including the NULL radix, read as 0) panics inside i64::from_str_radix instead of raising an error / returning NULL',
+         "SELECT FROM_BASE('0', 37) panicked: from_ascii_radix: radix must lie in the range `[2, 36]`", 'FROM_BASE, panic message mentions the radix range')
+def _f_from_base_panic(c):
+    return c['key'] == 'FROM_BASE' and _is_panic(c) and 'radix must lie' in _msg(c)
+
+
+@finding('width_bucket_descending_bounds', 'WIDTH_BUCKET', 'WIDTH_BUCKET with bound1 > bound2 (descending histogram) is evaluated with the ascending formula',
+         'SELECT WIDTH_BUCKET(-1.5, 10.0, 0.0, 5) returned 0, Trino documents 6', 'WIDTH_BUCKET, bound1 > bound2, engine value == ascending formula')
+def _f_wb_desc(c):
+    a = c['args']
+    if c['key'] != 'WIDTH_BUCKET' or any(x is None for x in a[:3]) or not a[1] > a[2] or c['eng'][0] != 'val':
+        return False
+    n = 1 if (c['mode'] == 'col' or a[3] is None) else a[3]
+    x, lo, hi = a[0], a[1], a[2]
+    if x != x:
+        return False
+    try:
+        m = 0 if x < lo else (n + 1 if x >= hi else int(math.floor((x - lo) / (hi - lo) * n)) + 1)
+    except (OverflowError, ValueError, ZeroDivisionError):
+        return False
+    return _val(c) == m
+
+
+@finding('normal_cdf_low_precision', 'NORMAL_CDF', 'NORMAL_CDF is accurate to about 1e-11 absolute only (relative error up to 1e-6 in the tails)',
+         'SELECT NORMAL_CDF(2.0, 0.5, -1.5) returned 1.2798125439170204e-12, the exact value is 1.2798095916366492e-12', 'NORMAL_CDF, |engine - exact| <= 1e-10')
+def _f_ncdf(c):
+    v, r = _val(c), _refval(c)
+    return c['key'] == 'NORMAL_CDF' and isinstance(v, float) and isinstance(r, float) and abs(v - r) <= 1e-10
+
+
+# ---- strings ----------------------------------------------------------------------------------------------------------------
+
+@finding('length_in_bytes', 'LENGTH', 'LENGTH / CHAR_LENGTH / CHARACTER_LENGTH count UTF-8 bytes, not characters', "SELECT LENGTH('日本') returned 6, Trino documents 2",
+         'LENGTH family, engine value == number of UTF-8 bytes')
+def _f_length(c):
+    return c['func'] in ('LENGTH', 'CHAR_LENGTH', 'CHARACTER_LENGTH') and c['args'][0] is not None and _val(c) == _u8len(c['args'][0])
+
+
+@finding('strpos_byte_offset', 'STRPOS/POSITION', 'STRPOS / POSITION return the byte offset of the match, not the character position', "SELECT STRPOS('日本', '本') returned 4, Trino documents 2",
+         'STRPOS|POSITION, engine value == UTF-8 byte offset + 1')
+def _f_strpos(c):
+    if c['key'] not in ('STRPOS', 'POSITION') or _null_in(c):
+        return False
+    s, sub = (c['args'][0], c['args'][1]) if c['key'] == 'STRPOS' else (c['args'][1], c['args'][0])
+    return _val(c) == s.encode('utf-8').find(sub.encode('utf-8')) + 1
+
+
+def _hamming_model(a, b):
+    if _u8len(a) != _u8len(b):
+        return None
+    return sum(1 for x, y in zip(a, b) if x != y)
+
+
+@finding('hamming_distance_compares_byte_lengths', 'HAMMING_DISTANCE', 'the equal-length check compares byte lengths (and yields NULL, not an error): equal-length strings with different byte lengths give NULL, '
+         'different-length strings with equal byte lengths give a number', "SELECT HAMMING_DISTANCE('a', 'é') returned NULL, Trino documents 1; HAMMING_DISTANCE('é', '%_') returned 1, Trino raises an error",
+         'HAMMING_DISTANCE, strings whose character and byte lengths disagree, engine value == byte-length model')
+def _f_hamming(c):
+    if c['key'] != 'HAMMING_DISTANCE' or _null_in(c) or c['eng'][0] != 'val':
+        return False
+    a, b = c['args']
+    if (len(a) == len(b)) == (_u8len(a) == _u8len(b)):
+        return False
+    return _val(c) == _hamming_model(a, b)
+
+
+def _substr_model(s, start, length=None):
+    """the engine's row loop: start cast to usize (negative -> skips everything), start 0 treated as 1, negative length -> unbounded"""
+    if start < 0:
+        return ''
+    b = max(start - 1, 0)
+    if length is None or length < 0:
+        return s[b:]
+    return s[b:b + length]
+
+
+@finding('substr_nonpositive_start_or_negative_length', 'SUBSTR/SUBSTRING', 'a negative start does not count from the end of the string (result is empty), start 0 is treated as 1 (Trino: empty string), '
+         'and a negative length returns the rest of the string (Trino: empty string)', "SELECT SUBSTR('Ab c', -2) returned '', Trino documents ' c'; SUBSTR('a', 0) returned 'a', Trino documents ''",
+         'SUBSTR|SUBSTRING (2 or 3 args), start <= 0 or length < 0, engine value == model of the usize casts')
+def _f_substr(c):
+    if c['func'] not in ('SUBSTR', 'SUBSTRING') or _null_in(c) or c['eng'][0] != 'val':
+        return False
+    a = c['args']
+    if not (a[1] <= 0 or (len(a) > 2 and a[2] < 0)):
+        return False
+    return _val(c) == _substr_model(*a)
+
+
+@finding('lpad_rpad_negative_size_panics', 'LPAD/RPAD', 'a negative size is cast to usize and the padding allocation panics (capacity overflow)', "SELECT LPAD('a', -1, '*') panicked: capacity overflow; Trino raises an error",
+         'LPAD|RPAD, size < 0, panic "capacity overflow"')
+def _f_pad_panic(c):
+    return c['func'] in ('LPAD', 'RPAD') and c['args'][1] is not None and c['args'][1] < 0 and _is_panic(c) and 'capacity overflow' in _msg(c)
+
+
+@finding('split_part_out_of_range_empty_string', 'SPLIT_PART', 'an index beyond the number of fields returns the empty string instead of NULL', "SELECT SPLIT_PART('a,b', ',', 3) returned '', Trino documents NULL",
+         'SPLIT_PART, documented NULL for index > fields, engine value == empty string')
+def _f_split_part(c):
+    return c['key'] == 'SPLIT_PART' and not _null_in(c) and c['args'][2] > 0 and c['ref'] == ('val', None) and _val(c) == ''
+
+
+def _translate_model(src, frm, to):
+    out = []
+    for ch in src:
+        i = frm.find(ch)
+        out.append(to[i] if 0 <= i < len(to) else ch)
+    return ''.join(out)
+
+
+@finding('translate_does_not_delete', 'TRANSLATE', 'a character of `from` with no counterpart in `to` is kept instead of being removed', "SELECT TRANSLATE('Ab c', 'b 本', 'X') returned 'AX c', Trino documents 'AXc'",
+         'TRANSLATE, engine value == model that keeps unmatched characters')
+def _f_translate(c):
+    return c['key'] == 'TRANSLATE' and not _null_in(c) and _val(c) == _translate_model(*c['args'])
+
+
+def _soundex_model(s):
+    u = s.upper()
+    out, prev = u[0], FR._SDX.get(u[0], '0')
+    for ch in u[1:]:
+        code = FR._SDX.get(ch, '0')
+        if code != '0' and code != prev:
+            out += code
+            if len(out) >= 4:
+                break
+        if code != '0':
+            prev = code
+    return (out + '000')[:4]
+
+
+@finding('soundex_vowels_do_not_separate', 'SOUNDEX', 'two letters with the same code separated by a vowel are coded once (the previous code survives vowels), and the code of the first letter is not compared',
+         "SELECT SOUNDEX('Tymczak') returned 'T520', the Soundex algorithm gives 'T522'; SOUNDEX('Honeyman') returned 'H500' (H555)", 'SOUNDEX, engine value == model in which vowels do not reset the previous code')
+def _f_soundex(c):
+    return c['key'] == 'SOUNDEX' and c['args'][0] and _val(c) == _soundex_model(c['args'][0])
+
+
+@finding('array_results_as_joined_string', 'SPLIT/REGEXP_SPLIT/REGEXP_EXTRACT_ALL', 'functions documented to return ARRAY(varchar) return one VARCHAR with the elements joined by commas (an empty array and an array holding one empty string are both the empty string)',
+         "SELECT SPLIT('a,b', ',') returned the string 'a,b', Trino documents ARRAY['a','b']", 'array-valued function, engine value is the comma-join of the documented elements')
+def _f_array_join(c):
+    r = _refval(c)
+    return c['func'] in ('SPLIT', 'REGEXP_SPLIT', 'REGEXP_EXTRACT_ALL') and isinstance(r, list) and _val(c) == ','.join(x if x is not None else '' for x in r)
+
+
+@finding('from_utf8_invalid_returns_null', 'FROM_UTF8', 'invalid UTF-8 input yields NULL instead of a string with U+FFFD replacement characters', "SELECT FROM_UTF8(FROM_HEX('61FF62')) returned NULL, Trino documents 'a�b'",
+         'FROM_UTF8/hex, documented value contains U+FFFD, engine NULL')
+def _f_from_utf8(c):
+    r = _refval(c)
+    return c['func'] == 'FROM_UTF8' and isinstance(r, str) and '�' in r and c['eng'] == ('val', None)
+
+
+# ---- conditional / regex ----------------------------------------------------------------------------------------------------
+
+@finding('nullif_distinguishes_negative_zero', 'NULLIF', 'NULLIF(-0.0, 0.0) returns its first argument: the two zeros are compared as different values', 'SELECT NULLIF(-0.0, 0.0) returned -0.0, Trino documents NULL (-0.0 = 0.0)',
+         'NULLIF/dbl, both arguments zero, engine value == first argument')
+def _f_nullif_zero(c):
+    a = c['args']
+    return c['key'] == 'NULLIF/dbl' and not _null_in(c) and a[0] == 0 and a[1] == 0 and c['eng'][0] == 'val' and _val(c) is not None and _val(c) == 0
+
+
+@finding('regexp_position_no_match_null', 'REGEXP_POSITION', 'no match yields NULL instead of -1', "SELECT REGEXP_POSITION('a', 'b|c') returned NULL, Trino documents -1", 'REGEXP_POSITION, documented -1, engine NULL')
+def _f_rpos_null(c):
+    return c['func'] == 'REGEXP_POSITION' and c['ref'] == ('val', -1) and c['eng'] == ('val', None)
+
+
+@finding('regexp_position_start_ignored', 'REGEXP_POSITION', 'the start argument is ignored: the position of the first match in the whole string is returned', "SELECT REGEXP_POSITION('a,b', 'a', 2) returned 1, Trino documents -1",
+         'REGEXP_POSITION/3, engine value == position (or NULL) computed without start')
+def _f_rpos_start(c):
+    if c['key'] != 'REGEXP_POSITION/3' or _null_in(c) or c['eng'][0] != 'val':
+        return False
+    s, p, st = c['args']
+    try:
+        m = re.compile(p).search(s)
+    except re.error:
+        return False
+    return st > 1 and _val(c) == (m.start() + 1 if m else None)
+
+
+@finding('regexp_replace_backslash_dollar', 'REGEXP_REPLACE', "the documented escape \\$ for a literal dollar sign in the replacement is not understood (Rust regex replacement syntax): the backslash is copied",
+         "SELECT REGEXP_REPLACE('a', 'a', '\\$') returned '\\$', Trino documents '$'", "REGEXP_REPLACE/3, replacement '\\$', engine value == replacement copied verbatim for every match")
+def _f_rrepl(c):
+    if c['key'] != 'REGEXP_REPLACE/3' or _null_in(c) or c['args'][2] != '\\$' or c['eng'][0] != 'val':
+        return False
+    try:
+        return _val(c) == re.compile(c['args'][1]).sub(lambda m: '\\$', c['args'][0])
+    except re.error:
+        return False
+
+
+# ---- encoding / bitwise / URL -----------------------------------------------------------------------------------------------
+
+@finding('crc32_negative_int32', 'CRC32', 'CRC32 is returned as a signed 32-bit integer: checksums above 2^31 come out negative', "SELECT CRC32('a') returned -390611389, Trino documents 3904355907 (bigint)",
+         'CRC32, engine value == documented value - 2^32')
+def _f_crc32(c):
+    r = _refval(c)
+    return c['key'] == 'CRC32' and isinstance(r, int) and _val(c) == r - (1 << 32)
+
+
+@finding('to_hex_lowercase', 'TO_HEX', 'TO_HEX prints lower-case digits', "SELECT TO_HEX(TO_UTF8('é')) returned 'c3a9', Trino documents 'C3A9'", 'TO_HEX, engine value == documented value lower-cased')
+def _f_to_hex(c):
+    r = _refval(c)
+    return c['key'] == 'TO_HEX' and isinstance(r, str) and _val(c) == r.lower() and r != r.lower()
+
+
+@finding('hmac_arguments_swapped', 'HMAC_MD5/SHA1/SHA256/SHA512', 'the first argument is used as the key and the second as the message; Trino documents hmac_*(binary, key)',
+         "SELECT HMAC_SHA256('', 'key') returned 052b9167..., Trino documents 5d5d1395... (= HMAC with key 'key' of the empty message)", 'HMAC_*, engine value == HMAC(key = first argument, message = second argument)')
+def _f_hmac(c):
+    if not c['func'].startswith('HMAC_') or _null_in(c) or not isinstance(_val(c), str):
+        return False
+    import hmac as _h
+    alg = c['func'][5:].lower()
+    return _val(c).lower() == _h.new(c['args'][0].encode(), c['args'][1].encode(), alg).hexdigest()
+
+
+@finding('bit_count_bits_ignored', 'BIT_COUNT', 'the bits argument is ignored (always 64 bits, no range check)', 'SELECT BIT_COUNT(-1, 8) returned 64, Trino documents 8; BIT_COUNT(7, 2) returned 3, Trino raises an error',
+         'BIT_COUNT/2, engine value == popcount of the 64-bit value')
+def _f_bit_count(c):
+    return c['key'] == 'BIT_COUNT/2' and c['args'][0] is not None and c['args'][1] is not None and _val(c) == bin(c['args'][0] & ((1 << 64) - 1)).count('1')
+
+
+@finding('bitwise_shift_ge_64_panics', 'BITWISE_LEFT_SHIFT/RIGHT_SHIFT/RIGHT_SHIFT_ARITHMETIC', 'a shift count >= 64 panics (attempt to shift with overflow) instead of returning 0 / the sign fill',
+         'SELECT BITWISE_LEFT_SHIFT(1, 64) panicked: attempt to shift left with overflow; Trino documents 0', 'shift functions, shift >= 64, panic "shift ... with overflow"')
+def _f_shift(c):
+    return c['func'].startswith('BITWISE_') and 'SHIFT' in c['func'] and not _null_in(c) and c['args'][1] >= 64 and _is_panic(c) and 'with overflow' in _msg(c)
+
+
+def _url_encode_model(s):
+    return ''.join(chr(b) if (chr(b).isascii() and chr(b).isalnum()) else '%%%02X' % b for b in s.encode('utf-8'))
+
+
+@finding('url_encode_not_form_encoding', 'URL_ENCODE', 'every non-alphanumeric byte is percent-encoded: a space becomes %20 (documented +) and . - * _ are encoded (documented: kept)',
+         "SELECT URL_ENCODE('Ab c') returned 'Ab%20c', Trino documents 'Ab+c'", 'URL_ENCODE, engine value == percent-encoding of every non-alphanumeric byte')
+def _f_url_encode(c):
+    return c['key'] == 'URL_ENCODE' and c['args'][0] is not None and _val(c) == _url_encode_model(c['args'][0])
+
+
+@finding('url_decode_plus_not_space', 'URL_DECODE', "'+' is not decoded to a space", "SELECT URL_DECODE('Ab+c') returned 'Ab+c', Trino documents 'Ab c'", "URL_DECODE, argument contains '+', engine value == documented value with the spaces from '+' left as '+'")
+def _f_url_decode(c):
+    a = c['args'][0]
+    if c['key'] != 'URL_DECODE' or a is None or '+' not in a or c['eng'][0] != 'val':
+        return False
+    try:
+        return _val(c) == FR._url_decode(a.replace('+', '%2B'))
+    except Exception:
+        return False
+
+
+@finding('url_extract_port_default_port_null', 'URL_EXTRACT_PORT', "an explicit port equal to the scheme's default port (80, 443, 21) is reported as NULL", "SELECT URL_EXTRACT_PORT('https://example.com:443/x') returned NULL, Trino documents 443",
+         'URL_EXTRACT_PORT, documented port is the default of the scheme, engine NULL')
+def _f_url_port(c):
+    a = c['args'][0]
+    return c['key'] == 'URL_EXTRACT_PORT' and a is not None and c['eng'] == ('val', None) and (a.split(':')[0].lower(), _refval(c)) in (('http', 80), ('https', 443), ('ftp', 21))
+
+
+# ---- date / time ------------------------------------------------------------------------------------------------------------
+
+@finding('date_diff_month_year_ignores_day', 'DATE_DIFF', "DATE_DIFF('month'|'year', a, b) subtracts the calendar fields and ignores the day of month / time of day: incomplete months and years are counted",
+         "SELECT DATE_DIFF('month', DATE '2023-12-31', DATE '2024-12-30') returned 12, Trino documents 11", 'DATE_DIFF month|year, engine value == (y2-y1)*12+(m2-m1) resp. y2-y1')
+def _f_date_diff(c):
+    m = re.match(r'DATE_DIFF/(month|year)/', c['key'])
+    if not m or _null_in(c):
+        return False
+    a, b = c['args']
+    months = (b.year - a.year) * 12 + b.month - a.month
+    return _val(c) == (months if m.group(1) == 'month' else b.year - a.year)
+
+
+@finding('date_unit_unsupported_returns_null', 'DATE_ADD/DATE_DIFF', "the documented units 'quarter' and 'millisecond' are not implemented: the result is NULL (no error)", "SELECT DATE_ADD('quarter', 1, DATE '2024-02-29') returned NULL, Trino documents 2024-05-29",
+         'DATE_ADD|DATE_DIFF with unit quarter or millisecond, non-NULL arguments, engine NULL')
+def _f_date_unit(c):
+    return re.match(r'DATE_(ADD|DIFF)/(quarter|millisecond)/', c['key']) is not None and not _null_in(c) and c['eng'] == ('val', None) and c['ref'][0] == 'val'
+
+
+@finding('day_of_week_sunday_based', 'DAY_OF_WEEK', 'DAY_OF_WEEK / DAYOFWEEK number the days 1 = Sunday .. 7 = Saturday; Trino documents ISO numbering 1 = Monday .. 7 = Sunday',
+         "SELECT DAY_OF_WEEK(DATE '2023-12-31') (a Sunday) returned 1, Trino documents 7", 'DAY_OF_WEEK|DAYOFWEEK, engine value == isoweekday % 7 + 1')
+def _f_dow(c):
+    a = c['args'][0]
+    return c['func'] in ('DAY_OF_WEEK', 'DAYOFWEEK') and a is not None and _val(c) == FR._date_of(a).isoweekday() % 7 + 1
+
+
+@finding('extract_unknown_field_returns_zero', 'EXTRACT', 'EXTRACT with a field the evaluator does not know (QUARTER, WEEK, DOW, DOY, DAY_OF_WEEK, DAY_OF_YEAR, DAY_OF_MONTH, YEAR_OF_WEEK, YOW) returns 0 instead of the value or an error',
+         "SELECT EXTRACT(QUARTER FROM DATE '2023-12-31') returned 0, Trino documents 4", 'EXTRACT/<field>, non-NULL argument, engine value == 0, documented value != 0')
+def _f_extract_zero(c):
+    return c['func'] == 'EXTRACT' and c['args'][0] is not None and _val(c) == 0 and _refval(c) != 0
+
+
+@finding('date_format_strftime_specifiers', 'DATE_FORMAT', 'MySQL specifiers without a chrono counterpart are passed to strftime with a different meaning (%x = locale date, %v = day-month-year) instead of ISO week-year / week',
+         "SELECT DATE_FORMAT(DATE '2024-12-30', '%x-W%v') returned '12/30/24-W30-Dec-2024', Trino documents '2025-W01'", "DATE_FORMAT with %x / %v, engine returns some other string")
+def _f_date_format_spec(c):
+    return c['key'].startswith('DATE_FORMAT/%x-W%v/') and c['args'][0] is not None and isinstance(_val(c), str)
+
+
+@finding('date_format_time_specifier_on_date_panics', 'DATE_FORMAT', 'a time-of-day specifier applied to a DATE argument panics in chrono formatting instead of formatting midnight', "SELECT DATE_FORMAT(DATE '2024-02-29', '%H:%i:%s') panicked: a Display implementation returned an error unexpectedly",
+         'DATE_FORMAT on a DATE with %H %i %s, panic from Display')
+def _f_date_format_panic(c):
+    return c['key'].startswith('DATE_FORMAT/') and c['key'].endswith('/date') and _is_panic(c) and 'Display implementation' in _msg(c)
+
+
+@finding('human_readable_seconds_format', 'HUMAN_READABLE_SECONDS', "the result is a two-decimal number with one unit ('1.60 minutes') instead of the documented breakdown ('1 minute, 36 seconds')",
+         "SELECT HUMAN_READABLE_SECONDS(96) returned '1.60 minutes', Trino documents '1 minute, 36 seconds'", "HUMAN_READABLE_SECONDS, engine value matches '<n>.<dd> seconds|minutes|hours|days'")
+def _f_hrs(c):
+    return c['key'] == 'HUMAN_READABLE_SECONDS' and isinstance(_val(c), str) and re.fullmatch(r'\d+\.\d\d (seconds|minutes|hours|days)', _val(c)) is not None
+
+
+@finding('to_unixtime_drops_fraction', 'TO_UNIXTIME', 'TO_UNIXTIME returns whole seconds (truncated toward zero) instead of a double with the fractional part', "SELECT TO_UNIXTIME(CAST('1969-12-31 23:59:59.500' AS TIMESTAMP)) returned 0, Trino documents -0.5",
+         'TO_UNIXTIME, engine value == trunc(documented value)')
+def _f_to_unixtime(c):
+    r = _refval(c)
+    return c['func'] == 'TO_UNIXTIME' and isinstance(r, float) and c['eng'][0] == 'val' and _val(c) is not None and _eq(_val(c), float(math.trunc(r))) and r != math.trunc(r)
+
+
+@finding('millisecond_negative_before_epoch', 'MILLISECOND', 'for a timestamp before 1970 the millisecond of the second comes out negative (remainder of a negative epoch value)', "SELECT MILLISECOND(CAST('1969-12-31 23:59:59.500' AS TIMESTAMP)) returned -500, Trino documents 500",
+         'MILLISECOND, engine value == documented value - 1000')
+def _f_millis(c):
+    r = _refval(c)
+    return c['func'] == 'MILLISECOND' and isinstance(r, int) and _val(c) == r - 1000
+
+
+# ---- JSON / misc ------------------------------------------------------------------------------------------------------------
+
+@finding('json_array_contains_string_matches_number', 'JSON_ARRAY_CONTAINS', 'a VARCHAR value matches a JSON number with the same text', "SELECT JSON_ARRAY_CONTAINS('[1, 2, 3]', '1') returned true, Trino returns false (only JSON strings are compared with a varchar)",
+         'JSON_ARRAY_CONTAINS/str, documented false, engine true, the array holds a number whose text is the value')
+def _f_jac(c):
+    if c['key'] != 'JSON_ARRAY_CONTAINS/str' or _null_in(c) or c['ref'] != ('val', False) or c['eng'] != ('val', True):
+        return False
+    try:
+        arr = json.loads(c['args'][0])
+    except ValueError:
+        return False
+    return any(isinstance(e, (int, float)) and not isinstance(e, bool) and (str(e) == c['args'][1] or (isinstance(e, float) and e == int(e) and str(int(e)) == c['args'][1])) for e in arr)
+
+
+@finding('json_extract_scalar_json_null_as_text', 'JSON_EXTRACT_SCALAR', "a JSON null is returned as the text 'null' instead of SQL NULL", "SELECT JSON_EXTRACT_SCALAR('{\"f\":null}', '$.f') returned 'null', Trino returns NULL",
+         "JSON_EXTRACT_SCALAR, documented NULL, engine value == 'null'")
+def _f_jes(c):
+    return c['key'] == 'JSON_EXTRACT_SCALAR' and not _null_in(c) and c['ref'] == ('val', None) and _val(c) == 'null'
+
+
+@finding('json_size_string_scalar_length', 'JSON_SIZE', 'the size of a JSON string scalar is its byte length instead of 0', "SELECT JSON_SIZE('{\"c\":{\"d\":\"é\"}}', '$.c.d') returned 2, Trino documents 0 for every scalar",
+         'JSON_SIZE, documented 0, the addressed value is a JSON string, engine value == its UTF-8 length')
+def _f_json_size(c):
+    if c['key'] != 'JSON_SIZE' or _null_in(c) or c['ref'] != ('val', 0):
+        return False
+    v = FR._jnav(*c['args'])
+    return isinstance(v, str) and _val(c) == _u8len(v)
+
+
+_ARROW_NAMES = {'bigint': 'Int64', 'double': 'Float64', 'varchar': 'Utf8', 'date': 'Date32', 'boolean': 'Boolean'}
+
+
+@finding('typeof_arrow_type_names', 'TYPEOF', 'TYPEOF returns the Arrow type name instead of the SQL type name', "SELECT TYPEOF(c) for a BIGINT column returned 'Int64', Trino documents 'bigint'", 'TYPEOF on a column, engine value == Arrow name of the documented SQL type')
+def _f_typeof(c):
+    return c['func'] == 'TYPEOF' and _val(c) == _ARROW_NAMES.get(_refval(c))
+
+
+# ---- arguments read from the first row of the batch (column mode only) ------------------------------------------------------------
+# model: what the engine answers when the parameter is replaced by the value in row 0 of the table (the all-NULL tuple -> the engine's default)
+
+def _regexp_extract0(s, p):
+    try:
+        return FR._regexp_extract(s, p, 0)
+    except FR.DomainError:
+        return _NOVAL
+
+
+_ROW0 = {
+    'ROUND/dbl,small': lambda a: FR._round_half_away(a[0], 0),
+    'LPAD': lambda a: a[0][:max(a[1], 0)] if a[1] is not None else _NOVAL,
+    'RPAD': lambda a: a[0][:max(a[1], 0)] if a[1] is not None else _NOVAL,
+    'REGEXP_EXTRACT/3': lambda a: _regexp_extract0(a[0], a[1]) if a[1] is not None else _NOVAL,
+}
+
+
+@finding('parameter_read_from_first_row', 'ROUND, LPAD, RPAD, REGEXP_EXTRACT (also TO_BASE, FROM_BASE, WIDTH_BUCKET, see their findings)', 'a parameter argument given as a column is read from the FIRST row of the batch only '
+         '(`value(0)` / `get_int_value(arr, 0)`) and applied to every row: decimals of ROUND, pad string of LPAD/RPAD, group of REGEXP_EXTRACT, radix of TO_BASE/FROM_BASE, bucket count of WIDTH_BUCKET',
+         "table u(x, d) = [(NULL, NULL), (0.5, 1)]: SELECT ROUND(x, d) FROM u returned 1.0 for the second row, Trino documents 0.5", 'column mode, function in the table, non-NULL main argument, engine value == the result under the first row\'s (NULL -> default) parameter')
+def _f_row0(c):
+    f = _ROW0.get(c['key'])
+    if f is None or c['mode'] != 'col' or c['args'][0] is None or c['eng'][0] != 'val':
+        return False
+    m = f(c['args'])
+    return m is not _NOVAL and _eq(_val(c), m)
+
+
+# ---- cross-cutting families, restricted to the functions in which they were observed ---------------------------------------------
+NULL_NOT_PROPAGATED = {'CONCAT', 'SUBSTR', 'SUBSTRING', 'LPAD', 'RPAD', 'LEFT', 'RIGHT', 'REPEAT', 'SPLIT_PART', 'ROUND', 'TRUNCATE', 'TRUNC', 'TO_BASE', 'WIDTH_BUCKET', 'GREATEST', 'LEAST'}
+INVALID_RETURNS_NULL = set()
+MISSING_VALIDATION = set()
+
+
+@finding('null_argument_not_propagated', ', '.join(sorted(NULL_NOT_PROPAGATED)), 'a NULL argument does not make the result NULL: the NULL is treated as an empty string / zero / the default (CONCAT, SUBSTR of a NULL string, NULL sizes, counts and '
+         'indexes) or skipped (GREATEST / LEAST); Trino documents NULL for a NULL argument of these functions', "SELECT CONCAT(CAST(NULL AS VARCHAR), 'a') returned 'a', Trino documents NULL; GREATEST(CAST(NULL AS BIGINT), 1) returned 1, Trino documents NULL",
+         'function in the list, some argument NULL, documented NULL, engine returns a non-NULL value')
+def _f_null_not_prop(c):
+    return c['func'] in NULL_NOT_PROPAGATED and (_doc_null_by_propagation(c) or (c['func'] in ('GREATEST', 'LEAST') and _null_in(c) and c['ref'] == ('val', None))) and c['eng'][0] == 'val' and c['eng'][1] is not None
